@@ -61,6 +61,15 @@ Lemma w_labels :
   state_at ckey_dec w_g w_hist 4 wk2 = Some wv2 /\ state_at ckey_dec w_g w_hist 4 wk1 = None.
 Proof. vm_compute. repeat split; reflexivity. Qed.
 
+Lemma bytes_eqb_refl l : bytes_eqb l l = true.
+Proof. induction l as [|x l IH]; [reflexivity|]. cbn. rewrite N.eqb_refl. exact IH. Qed.
+
+Lemma w_labels_differ : w_label1 <> w_label2.
+Proof.
+  intros E. assert (X : bytes_eqb w_label1 w_label2 = true) by (rewrite E; apply bytes_eqb_refl).
+  revert X. vm_compute. discriminate.
+Qed.
+
 Lemma label_schedule_dependent_refuted :
   exists (hist : list cblock) (g : store ckey cval) gleaves gtotals P ops1 ops2 R l1 l2,
     genesis_ok ckey cval (cleaf sha512_256) g gleaves /\
@@ -71,12 +80,8 @@ Lemma label_schedule_dependent_refuted :
     l1 <> l2.
 Proof.
   exists w_hist, w_g, [], [128], w_P, w_ops1, w_ops2, 4, w_label1, w_label2.
-  destruct w_labels as (A & B & C & _).
-  split; [exact w_genesis_ok|]. split; [exact w_kv_old_ok|]. split; [discriminate|].
-  fold (w_run w_ops1). fold (w_run w_ops2). rewrite A, B.
-  split; [left; reflexivity|]. split; [left; reflexivity|].
-  intros E. rewrite E in C. 
-  assert (X : forall l, bytes_eqb l l = true).
-  { induction l as [|x l IH]; [reflexivity|]. cbn. rewrite N.eqb_refl. exact IH. }
-  rewrite X in C. discriminate.
+  destruct w_labels as (A & B & _). unfold w_run in A, B.
+  split; [exact w_genesis_ok|]. split; [exact w_kv_old_ok|]. split; [intros E; inversion E|].
+  rewrite A, B.
+  split; [left; reflexivity|]. split; [left; reflexivity|]. exact w_labels_differ.
 Qed.
